@@ -226,6 +226,9 @@ def run_conversations(cases):
                 sent_log[state["r"]] = msgs
                 for m in msgs:
                     stream.feed(("event: message\ndata: %s\n\n" % json.dumps(m, ensure_ascii=False, separators=(",", ":"))).encode())
+                if state["r"] % 2:
+                    # a fast server: the answer is on the event stream before the 202 is back
+                    await anyio.sleep(0.01)
             return httpx.Response(202, content=b"")
 
         with httpx_seam.seam(handler):
